@@ -8,7 +8,7 @@
    reports the same sequence is observed on the implementation and judged by the flag `c_stable` in C02.Run.spec_ok. *)
 From Coq Require Import ZArith List Bool Lia Arith Permutation.
 Import ListNotations.
-From QCE Require Import Base.Prelude Core.Model Core.BfsProofs Core.BfsWf.
+From QCE Require Import Base.Prelude Core.Model Core.Run Core.BfsProofs Core.BfsWf.
 From Gen Require Import Ident Classes.
 Local Open Scope nat_scope.
 
@@ -433,3 +433,124 @@ Proof.
   intros W. split; [apply op_leaves_comp|]. split; [apply bfs_NoDup; exact W|].
   intros i. rewrite (bfs_In _ _ W), parents_length. pose proof max_layers_eq. split; intros [H1 H2]; split; auto; lia.
 Qed.
+
+(* flat case: both nodes are plain operations, so the parent's entry precedes the child's entry *)
+Lemma node_entries_leaf env c ns i n l : nth_error ns i = Some n -> n_op n = OLeaf l ->
+  exists e, node_entries env c ns i = [e] /\ e_leaf e = l.
+Proof.
+  intros E K. rewrite node_entries_at. unfold at_node. rewrite E, K. simpl. eexists. split; reflexivity.
+Qed.
+
+Corollary causal_leaves env r ns c se j p nj np lj lp : wf_parents (parents ns) ->
+  nth_error (parents ns) j = Some (Some p) -> In j (bfs (parents ns)) ->
+  nth_error ns p = Some np -> n_op np = OLeaf lp -> nth_error ns j = Some nj -> n_op nj = OLeaf lj ->
+  before (map e_leaf (listing_op env (OComp r ns) c se)) lp lj.
+Proof.
+  intros W E Hj Ep Kp Ej Kj.
+  destruct (node_entries_leaf env c ns p np lp Ep Kp) as (ep & Hp & <-).
+  destruct (node_entries_leaf env c ns j nj lj Ej Kj) as (ej & Hej & <-).
+  apply before_map. apply (causal_parent env r ns c se j p W E Hj); [rewrite Hp | rewrite Hej]; left; reflexivity.
+Qed.
+
+(* ------------------------------------------------------------------ the depth limit on a chain *)
+(* node 0 is a root, node i+1 follows node i: the relation graph of n operations added one after the other on one qubit *)
+Definition chain_parents (n : nat) : list (option nat) := map (fun i => match i with O => None | S k => Some k end) (seq 0 n).
+
+Lemma chain_nth n i : i < n -> nth_error (chain_parents n) i = Some (match i with O => None | S k => Some k end).
+Proof.
+  intros H. unfold chain_parents. rewrite nth_error_map.
+  rewrite (nth_error_nth' (seq 0 n) 0) by (rewrite seq_length; exact H). rewrite seq_nth by exact H. reflexivity.
+Qed.
+
+Lemma chain_length n : length (chain_parents n) = n.
+Proof. unfold chain_parents. now rewrite map_length, seq_length. Qed.
+
+Lemma chain_wf n : wf_parents (chain_parents n).
+Proof.
+  intros i p E. assert (Hi : i < n).
+  { rewrite <- (chain_length n). apply nth_error_Some. congruence. }
+  rewrite chain_nth in E by exact Hi. destruct i; inversion E; subst. lia.
+Qed.
+
+Lemma chain_depth n i : i < n -> depth (chain_parents n) i = i.
+Proof.
+  induction i as [|i IH]; intros H.
+  - apply depth_root. now rewrite chain_nth.
+  - rewrite (depth_child _ (S i) i (chain_wf n)) by now rewrite chain_nth. rewrite IH by lia. reflexivity.
+Qed.
+
+Theorem chain_listed n i : In i (bfs (chain_parents n)) <-> i < n /\ (Z.of_nat i < 4999)%Z.
+Proof.
+  rewrite (bfs_In _ _ (chain_wf n)), chain_length. pose proof max_layers_eq. split; intros [H1 H2]; split; auto.
+  - rewrite chain_depth in H2 by exact H1. lia.
+  - rewrite chain_depth by exact H1. lia.
+Qed.
+
+(* a chain of more than 4999 operations lists exactly 4999 of them (measured on the implementation: 5005 -> 4999) *)
+Theorem chain_truncated n : (4999 <= Z.of_nat n)%Z -> Z.of_nat (length (bfs (chain_parents n))) = 4999%Z.
+Proof.
+  intros H. pose proof max_layers_eq as M.
+  assert (P : Permutation (bfs (chain_parents n)) (seq 0 max_layers)).
+  { apply NoDup_Permutation; [apply bfs_NoDup, chain_wf | apply seq_NoDup |].
+    intros i. rewrite chain_listed, in_seq. lia. }
+  rewrite (Permutation_length P), seq_length. exact M.
+Qed.
+
+(* ------------------------------------------------------------------ non-vacuity *)
+Local Open Scope Z_scope.
+Definition ex_env : denv := mk_env 8 2 4 16 [].
+Definition ex_leaf (lab cls q : Z) : leaf := mk_leaf lab cls [q] QubitChannel_ALL (default_dstrat cls) None.
+(* operations on two qubits, a repeated block containing a nested block, explicit and dangling relations *)
+Definition ex_prog : list cmd :=
+  [ CAdd (ex_leaf 0 C_Rx180 0) None;
+    CSub 2 [ CAdd (ex_leaf 1 C_Rx90 0) None; CAdd (ex_leaf 2 C_Ry90 1) None;
+             CSub 1 [ CAdd (mk_leaf 3 C_CPhase [0; 1] QubitChannel_ALL (DGlobal GFlux) None) None ];
+             CAdd (ex_leaf 4 C_Rxm90 0) (Some (RelationType_JOINED_START, 1%nat)) ];
+    CAdd (ex_leaf 5 C_Ry180 1) (Some (RelationType_FOLLOWED_BY, 0%nat));
+    CDangling (ex_leaf 6 C_Rx180 0) RelationType_FOLLOWED_BY;
+    CAdd (mk_leaf 7 C_DispersiveMeasure [0] QubitChannel_ALL (DGlobal GReadout) (Some (0, 0))) None;
+    CAdd (ex_leaf 8 C_Rx180 1) (Some (RelationType_FOLLOWED_BY, 0%nat)) ].
+
+Example ex_small : small_prog ex_prog.
+Proof. split; [vm_compute; discriminate|]. repeat (constructor; try (vm_compute; discriminate)). Qed.
+
+Example ex_faithful : faithful_classes ex_prog.
+Proof. unfold faithful_classes. vm_compute prog_leaves. repeat constructor. Qed.
+
+(* the listing order is not the insertion order, and the block of node 1 (labels 1-4) stays together *)
+Example ex_listing_labels :
+  map l_lab (map e_leaf (listing ex_env (run_prog ex_env ex_prog))) = [0; 7; 1; 2; 3; 4; 5; 8; 6]
+  /\ map l_lab (prog_leaves ex_prog) = [0; 1; 2; 3; 4; 5; 6; 7; 8].
+Proof. split; vm_compute; reflexivity. Qed.
+
+Example ex_listing_perm : Permutation (map e_leaf (listing ex_env (run_prog ex_env ex_prog))) (prog_leaves ex_prog).
+Proof. apply listing_leaves_perm; [apply small_prog_ok, ex_small | apply ex_faithful]. Qed.
+
+(* node 5 (label 8) names node 0 (label 0); node 3 (label 6, dangling relation) was placed after node 1, the block *)
+Example ex_causal_hyp :
+  parents (run_prog ex_env ex_prog) = [None; Some 0; Some 0; Some 1; None; Some 0]%nat
+  /\ bfs (parents (run_prog ex_env ex_prog)) = [0; 4; 1; 2; 5; 3]%nat.
+Proof. split; vm_compute; reflexivity. Qed.
+
+(* ------------------------------------------------------------------ the classes of the current source *)
+(* whether every class of the generated table copies its channel and duration fields (Gen/Classes.v is regenerated from the
+   source on every run; finding F3 was a class -- VirtualTwoQubitVacant -- for which this was false) *)
+Definition table_faithful : bool := forallb (fun cs => cs_copy_qchan cs && cs_copy_dur cs) class_table.
+
+Lemma table_faithful_leaf : table_faithful = true -> forall l, faithful_leaf l = true.
+Proof.
+  intros T l. unfold faithful_leaf, class_of. unfold table_faithful in T. rewrite forallb_forall in T.
+  destruct (nth_in_or_default (Z.to_nat (l_cls l)) class_table no_class) as [H | H].
+  - exact (T _ H).
+  - rewrite H. reflexivity.
+Qed.
+
+Theorem listing_leaves_perm_table env p : table_faithful = true -> prog_ok env p ->
+  Permutation (map e_leaf (listing env (run_prog env p))) (prog_leaves p).
+Proof.
+  intros T H. apply listing_leaves_perm; [exact H|]. apply Forall_forall. intros l _. apply table_faithful_leaf. exact T.
+Qed.
+
+(* holds for the source as it is now; fails to check (by design) if a class' copy() stops passing on these fields *)
+Example current_table_faithful : table_faithful = true.
+Proof. vm_compute. reflexivity. Qed.
